@@ -14,7 +14,7 @@ LEVEL = "exploration"
 FLAVOURS = ["asan"]
 TARGETS = ["valtool"]
 RULE = ("Hypothesis generates pairs (state1, state2) of ONE path on a real temporary directory: kind in {missing, "
-        "file, dir, symlink->file, symlink->missing}, content of 0-70000 bytes (differing at the first / last / any "
+        "file, dir, symlink->file, symlink->missing; a link names one of four targets, two of them of equal length, and may be re-targeted}, content of 0-70000 bytes (differing at the first / last / any "
         "byte, same or different size), explicit mtime (equal or not, ns resolution), inode kept (rewrite in place) "
         "or replaced (write-temp-and-rename). Each state is observed through createLocalFileSystem(), "
         "DeviceAgnosticFileSystem and ChecksumOnlyFileSystem, with getFileInfo and getLinkInfo, and the two "
@@ -34,6 +34,8 @@ def budget(tier):
 
 
 KINDS = ["missing", "file", "dir", "link-file", "link-missing"]
+# what a symbolic link points at: the link's own "content" (its size is the length of this string)
+TNAMES = ["target", "targex", "tgt", "target-with-a-longer-name"]
 _sizes = st.sampled_from([0, 1, 2, 15, 16, 17, 4095, 4096, 4097, 16383, 16384, 16385, 65536, 70000]) | st.integers(0, 300)
 
 
@@ -46,7 +48,7 @@ def content(draw):
 
 @st.composite
 def state(draw):
-    return {"kind": draw(st.sampled_from(KINDS)), "content": draw(content()),
+    return {"kind": draw(st.sampled_from(KINDS)), "content": draw(content()), "tname": draw(st.sampled_from(TNAMES)),
             "mtime": [draw(st.sampled_from([1, 1000000000, 1700000000])), draw(st.sampled_from([0, 1, 999999999]))]}
 
 
@@ -54,8 +56,10 @@ def state(draw):
 def pair(draw):
     s1 = draw(state())
     how = draw(st.sampled_from(["same", "content-same-size", "content-size", "mtime", "replace-inode", "kind",
-                                "free", "untouched"]))
-    s2 = {"kind": s1["kind"], "content": dict(s1["content"]), "mtime": list(s1["mtime"])}
+                                "free", "untouched", "retarget"]))
+    if how == "retarget":
+        s1["kind"] = draw(st.sampled_from(["link-file", "link-missing"]))
+    s2 = {"kind": s1["kind"], "content": dict(s1["content"]), "mtime": list(s1["mtime"]), "tname": s1["tname"]}
     inplace = True
     if how == "content-same-size":
         n = s1["content"]["n"]
@@ -74,6 +78,10 @@ def pair(draw):
         inplace = False
     elif how == "kind":
         s2["kind"] = draw(st.sampled_from([k for k in KINDS if k != s1["kind"]]))
+        inplace = False
+    elif how == "retarget":
+        # the link now names something else (same length: only the target string tells; or another length)
+        s2["tname"] = draw(st.sampled_from([t for t in TNAMES if t != s1["tname"]]))
         inplace = False
     elif how == "free":
         s2 = draw(state())
@@ -102,16 +110,19 @@ def wipe(p):
 
 def apply_state(base, s, prev=None, inplace=False):
     p = os.path.join(base, "obj")
-    tgt = os.path.join(base, "target")
+    tname = s.get("tname", "target")
+    tgt = os.path.join(base, tname)
     mt = s["mtime"][0] * 1000000000 + s["mtime"][1]
-    same_kind = prev is not None and prev["kind"] == s["kind"]
+    same_kind = prev is not None and prev["kind"] == s["kind"] and prev.get("tname", "target") == tname
     if not (inplace and same_kind):
         wipe(p)
-        wipe(tgt)
+        for t in TNAMES:
+            wipe(os.path.join(base, t))
     k = s["kind"]
     if k == "missing":
         wipe(p)
-        wipe(tgt)
+        for t in TNAMES:
+            wipe(os.path.join(base, t))
         return
     if k == "file":
         if inplace and same_kind:
@@ -139,12 +150,12 @@ def apply_state(base, s, prev=None, inplace=False):
                 f.write(data_of(s["content"]))
         os.utime(tgt, ns=(mt, mt))
         if not os.path.islink(p):
-            os.symlink("target", p)
+            os.symlink(tname, p)
         os.utime(p, ns=(mt, mt), follow_symlinks=False)
     elif k == "link-missing":
         wipe(tgt)
         if not os.path.islink(p):
-            os.symlink("target", p)
+            os.symlink(tname, p)
         os.utime(p, ns=(mt, mt), follow_symlinks=False)
 
 
